@@ -973,19 +973,23 @@ def unfold_combinator(text, off, variant):
 
 
 # ---------------------------------------------------------------- R22 filter_map over an owned map -> loop
-def r22_filter_map(text):
-    """`M.into_iter().filter_map(|PAT| { BODY }).collect()` (M a plain identifier; tail expression or let initialiser) ->
-    `{ let fm_f_ = |fm_p_| { let PAT = fm_p_; BODY }; let fm_src_ = into_pairs(M); let mut fm_out_ = Vec::new();
-       for fm_x_ in fm_src_ { if let Some(fm_y_) = fm_f_(fm_x_) { fm_out_.push(fm_y_); } } fm_out_ }`
-    — the definition of filter_map + collect into a Vec. `into_pairs` is the assumed contract of the map's `into_iter`
-    (every pair exactly once, in an unspecified order)."""
+def r22_filter_map(text, map_sources=()):
+    """`M.into_iter().filter_map(|PAT| { BODY }).collect()` / `M.into_par_iter().map(|PAT| { BODY }).collect()` (M a plain
+    identifier; tail expression or let initialiser) ->
+    `{ let fm_f_ = |fm_p_| { let PAT = fm_p_; BODY }; let fm_src_ = SRC; let mut fm_out_ = Vec::new();
+       for fm_x_ in fm_src_ { if let Some(fm_y_) = fm_f_(fm_x_) { fm_out_.push(fm_y_); } } fm_out_ }`   (filter_map)
+       `... for fm_x_ in fm_src_ { fm_out_.push(fm_f_(fm_x_)); } ...`                                    (map)
+    — the definition of (filter_)map + collect into a Vec. SRC is `into_pairs(M)` for identifiers listed in
+    `r22_map_sources` (M is a std map: `into_pairs` is the assumed contract of its `into_iter`, every pair exactly once
+    in an unspecified order) and `M` itself otherwise (M is a Vec). For rayon's `into_par_iter` this states the
+    sequential meaning of an indexed parallel map + collect (input order kept; closure without shared mutable state)."""
     m = mask(text)
-    for mt in re.finditer(r"(?<![A-Za-z0-9_.])([a-z_][A-Za-z0-9_]*)\s*\.\s*into_iter\s*\(\s*\)\s*\.\s*filter_map\s*\(\s*\|", m):
+    for mt in re.finditer(r"(?<![A-Za-z0-9_.])([a-z_][A-Za-z0-9_]*)\s*\.\s*(into_iter|into_par_iter)\s*\(\s*\)\s*\.\s*(filter_map|map)\s*\(\s*\|", m):
         op = m.rindex("(", mt.start(), mt.end())
         cp = match_close(m, op)
         tail = re.match(r"\s*\.\s*collect\s*\(\s*\)", m[cp + 1:])
         if not tail:
-            raise Unsupported("R22: filter_map not followed by collect()")
+            raise Unsupported("R22: (filter_)map not followed by collect()")
         end = cp + 1 + tail.end()
         bar1 = mt.end() - 1
         bar2 = m.index("|", bar1 + 1)
@@ -997,8 +1001,49 @@ def r22_filter_map(text):
         if m[be + 1:cp].strip() not in ("", ","):
             raise Unsupported("R22: closure shape")
         src = mt.group(1)
+        srcx = ("into_pairs(%s)" % src) if src in map_sources else src
+        if mt.group(3) == "filter_map":
+            body = "if let Some(fm_y_) = fm_f_(fm_x_) { fm_out_.push(fm_y_); }"
+        else:
+            body = "fm_out_.push(fm_f_(fm_x_));"
         return [Edit(mt.start(), bs + 1, "{ let fm_f_ = |fm_p_| { let %s = fm_p_;" % pat, "R22"),
-                Edit(be + 1, end, "; let fm_src_ = into_pairs(%s); let mut fm_out_ = Vec::new(); for fm_x_ in fm_src_ { if let Some(fm_y_) = fm_f_(fm_x_) { fm_out_.push(fm_y_); } } fm_out_ }" % src, "R22")]
+                Edit(be + 1, end, "; let fm_src_ = %s; let mut fm_out_ = Vec::new(); for fm_x_ in fm_src_ { %s } fm_out_ }" % (srcx, body), "R22")]
+    return []
+
+
+# ---------------------------------------------------------------- R24 closure with a tuple-pattern parameter
+def r24_closure_tuple_param(text):
+    """`|(a, b)| EXPR` -> `|cp_N_| { let (a, b) = cp_N_; EXPR }` (Verus: "only variables are supported here")."""
+    m = mask(text)
+    n = 0
+    for mt in re.finditer(r"\|\s*(\((?:[^()|]|\([^()|]*\))*\))\s*\|", m):
+        j = skip_ws_back(m, mt.start())
+        if j >= 0 and m[j] not in "(,=" and not re.search(r"(?<![A-Za-z0-9_])move\s*$", m[:mt.start()]):
+            continue
+        n += 1
+        pat = text[mt.start(1):mt.end(1)]
+        name = "cp_%d_" % (len(set(re.findall(r"(?<![A-Za-z0-9_])cp_(\d+)_", m))) + 1)
+        body_s = skip_ws(m, mt.end())
+        eds = [Edit(mt.start(1), mt.end(1), name, "R24")]
+        if m[body_s] == "{":
+            eds.append(Edit(body_s + 1, body_s + 1, " let %s = %s;" % (pat, name), "R24"))
+        else:
+            be = _expr_end(m, body_s)
+            eds.append(Edit(body_s, body_s, "{ let %s = %s; " % (pat, name), "R24"))
+            eds.append(Edit(be, be, " }", "R24"))
+        return eds
+    return []
+
+
+# ---------------------------------------------------------------- R25 collect a map into a Vec of pairs
+def r25_collect_pairs(text):
+    """`let X: Vec<_> = RECV.into_iter().collect();` -> `let X: Vec<_> = into_pairs(RECV);` (RECV a field path of a std
+    map; `into_pairs` = assumed contract of its `into_iter`: every pair exactly once, unspecified order)."""
+    m = mask(text)
+    for mt in re.finditer(r"(?<![A-Za-z0-9_])let\s+[a-z_][A-Za-z0-9_]*\s*:\s*Vec\s*<\s*_\s*>\s*=\s*([A-Za-z_][A-Za-z0-9_\.]*)\s*\.\s*into_iter\s*\(\s*\)\s*\.\s*collect\s*\(\s*\)\s*;", m):
+        a = mt.start(1)
+        e = m.rindex(";", mt.start(), mt.end())
+        return [Edit(a, e, "into_pairs(%s)" % text[mt.start(1):mt.end(1)], "R25")]
     return []
 
 
@@ -1055,7 +1100,7 @@ def r14_const_fn(text):
 # ---------------------------------------------------------------- R15 matches! with binding-free patterns is fine; nothing to do
 
 
-ITERATED = {"R6", "R7", "R10", "R11", "R15", "R16", "R17", "R18", "R19", "R20", "R22", "R23"}
+ITERATED = {"R6", "R7", "R10", "R11", "R15", "R16", "R17", "R18", "R19", "R20", "R22", "R23", "R24", "R25"}
 
 TABLE = {
     "R1": r1_visibility,
@@ -1080,10 +1125,12 @@ TABLE = {
     "R20": r20_rev_suffix,
     "R22": r22_filter_map,
     "R23": r23_rev_enumerate,
+    "R24": r24_closure_tuple_param,
+    "R25": r25_collect_pairs,
 }
-ORDER = ["R2", "R1", "R1p", "R14", "R4", "R3", "R5", "R6", "R15", "R13", "R11", "R7", "R8", "R12", "R17", "R18", "R19", "R20", "R22", "R23", "R10", "R16"]
+ORDER = ["R2", "R1", "R1p", "R14", "R4", "R3", "R5", "R6", "R15", "R13", "R11", "R7", "R8", "R12", "R17", "R18", "R19", "R20", "R25", "R22", "R24", "R23", "R10", "R16"]
 
-EXEC_TOUCHING = {"R3", "R4", "R6", "R7", "R8", "R10", "R11", "R12", "R13", "R14", "R15", "R16", "R17", "R18", "R19", "R20", "R21", "R22", "R23"}
+EXEC_TOUCHING = {"R3", "R4", "R6", "R7", "R8", "R10", "R11", "R12", "R13", "R14", "R15", "R16", "R17", "R18", "R19", "R20", "R21", "R22", "R23", "R24", "R25"}
 
 
 def apply_rewrites(text, enabled, opts=None):
@@ -1112,6 +1159,8 @@ def apply_rewrites(text, enabled, opts=None):
                 eds = fn(cur, opts.get("r16_only"))
             elif rid == "R18":
                 eds = fn(cur, opts.get("abstract_lets", ()))
+            elif rid == "R22":
+                eds = fn(cur, opts.get("r22_map_sources", ()))
             elif rid == "R2":
                 eds = fn(cur, opts.get("drop_derives", ()))
             else:
